@@ -47,11 +47,15 @@ def handle : Handler := fun j a => do
   let canon := canonical recorded srvs
   if canon != jBoolOr j "canonical" false then a := a.mismatch s!"harness and Lean disagree on the canonical predicate in {ctx}"
   if !canon then
-    a := a.violationSig s!"{pid}:not-canonical-after-healing{if crashed != "" && jStrOr j "crash_state" "" == "promoted-node-not-yet-recorded" then ":manager-died-after-new-master-writable-before-master-key-written" else ""}" s!"{jStrOr j "why" ""}; writers={writers srvs} recorded={recorded} in {ctx}"
+    a := a.violationSig s!"{pid}:not-canonical-after-healing{if crashed != "" && ((jArr j "samples").toOption.getD #[]).toList.any (fun s => (strList s "acked").any fun h => h != jStrOr s "master_key" "" && h != recorded) then ":promoted-node-was-never-recorded" else ""}" s!"{jStrOr j "why" ""}; writers={writers srvs} recorded={recorded} in {ctx}"
   let acked := jStrOr j "acked_set" ""
-  -- the state in which the manager died distinguishes the known window (C07 known finding) from anything else
-  let crashState := jStrOr j "crash_state" ""
-  let sfx := if crashed != "" && crashState == "promoted-node-not-yet-recorded" then ":manager-died-after-new-master-writable-before-master-key-written" else ""
+  -- the failing history of the known C07 finding, whatever triggered it (death of the manager or loss of its
+  -- coordination service between making the new master writable and recording it): a node acknowledged client writes
+  -- while it was not the recorded master, and it never became the recorded master
+  let samples0 ← jArr j "samples"
+  let unrecorded := samples0.toList.any fun s =>
+    (strList s "acked").any fun h => h != jStrOr s "master_key" "" && h != recorded
+  let sfx := if crashed != "" && unrecorded then ":promoted-node-was-never-recorded" else ""
   if !ackedPreserved recorded srvs acked then
     a := a.violationSig s!"{pid}:acknowledged-transaction-missing-on-the-master{sfx}" s!"lost={(strList j "lost").take 5} ({(strList j "lost").length}) in {ctx}"
   -- one acknowledging node at a time
